@@ -244,3 +244,23 @@ def send_retry(self: Obj("AxolotlReceivelayer"), message_node: Obj("ProtocolTree
                     map_get(self._retries, attr(message_node, "id")) == map_get(old(self._retries), attr(message_node, "id")) + 1))
     ensures(event_arg("setattr:count", 0, 1) == map_get(self._retries, attr(message_node, "id")))
     propagates("*")
+
+
+# =====================================================================================================================
+# native generators (replay / directed search on the real functions)
+# =====================================================================================================================
+def gen__unpad(rng, n):
+    """payload || padding for every padding length, payloads that END in the padding byte included"""
+    for it in range(n):
+        k = 1 + (it % 255)
+        body = [rng.randrange(256) for _ in range(rng.choice([0, 1, 5, 40]))]
+        if it % 3 == 0:
+            body = body + [k] * rng.choice([1, 2, 7])
+        yield {'inputs': {'self': {}, 'data': body + [k] * k}}
+
+
+def gen_enqueueSent(rng, n):
+    for it in range(n):
+        q = rng.choice([0, 1, 5, 99, 100])
+        yield {'inputs': {'self': {'_manager': None, 'skipEncJids': [], 'sentQueue': [{'$node': i} for i in range(q)], 'iqRegistry': []},
+                          'node': {'tag': 'message', 'attributes': {'id': 'm%d' % it, 'to': 'x@s.whatsapp.net'}, 'children': []}}}
